@@ -50,7 +50,10 @@ pub fn fault_call(ch: &mut Chooser, kind: &str) -> Option<(Expr, Vec<Expr>)> {
             4 => (var("cdr"), vec![q(Datum::List(vec![], None))]),
             _ => (var("vector-length"), vec![Expr::Int(3)]),
         },
-        "vector-index" => match ch.below(4) {
+        "vector-index" => match ch.below(7) {
+            4 => (var("vector-set!"), vec![var("wv"), Expr::Int(-1), Expr::Int(0)]),
+            5 => (var("vector-set!"), vec![var("wv"), Expr::Int(-2), Expr::Quote(Datum::Sym("neg".into()))]),
+            6 => (var("vector-set!"), vec![var("wv"), Expr::Int(3), Expr::Int(0)]),
             0 => (var("vector-ref"), vec![var("wv"), Expr::Int(3)]),
             1 => (var("vector-ref"), vec![var("wv"), Expr::Int(-1)]),
             2 => (var("vector-set!"), vec![var("wv"), Expr::Int(5), Expr::Int(0)]),
@@ -101,8 +104,13 @@ fn bury(ch: &mut Chooser, e: Expr, tail_preserving: bool, derived: bool) -> Expr
 pub struct FaultForm {
     pub kind: &'static str,
     pub context: &'static str,
+    /// a definition that must be evaluated (successfully) somewhere before the faulting form
+    pub pre: Option<Form>,
     pub form: Form,
 }
+
+/// contexts used by C08 only: the faulting operation sits in a procedure defined by an earlier top-level form
+pub const CONTEXTS_C08: [&str; 6] = ["direct", "non-tail", "tail", "apply", "library", "deferred"];
 
 /// the faulting top-level form: effects before, the fault in its context, effects that must not happen
 pub fn fault_form(ch: &mut Chooser, kind: &'static str, context: &'static str) -> FaultForm {
@@ -118,7 +126,24 @@ pub fn fault_form_with(ch: &mut Chooser, kind: &'static str, context: &'static s
         Some((f, args)) => Expr::App(Box::new(f.clone()), args.clone()),
         None => non_call_fault(kind),
     };
+    let mut pre = None;
     let core = match context {
+        "deferred" => {
+            // (define (later-fault a) ... FAULT ...) earlier; the faulting form only calls it, in some calling context
+            let tailp = ch.chance(1, 2);
+            let body = bury(ch, direct(&call), tailp, derived);
+            pre = Some(Form::Define(Def {
+                name: "later-fault".into(),
+                value: Expr::Lambda(Formals { fixed: vec!["later-arg".into()], rest: None }, body1(body)),
+                sugar: true,
+            }));
+            match ch.below(4) {
+                0 => app("later-fault", vec![Expr::Int(1)]),
+                1 => Expr::App(Box::new(lam0(app("later-fault", vec![Expr::Int(1)]))), vec![]),
+                2 => Expr::Apply(Box::new(var("later-fault")), vec![], Box::new(Expr::Quote(Datum::List(vec![Datum::Int(1)], None)))),
+                _ => app("map", vec![var("later-fault"), Expr::Quote(Datum::List(vec![Datum::Int(1), Datum::Int(2)], None))]),
+            }
+        }
         "direct" => bury(ch, direct(&call), false, derived),
         "non-tail" => {
             // inside a procedure, in operand position
@@ -185,7 +210,7 @@ pub fn fault_form_with(ch: &mut Chooser, kind: &'static str, context: &'static s
     } else {
         Expr::App(Box::new(Expr::Lambda(Formals { fixed: vec![], rest: None }, Box::new(Body { defs: vec![], exprs: seq }))), vec![])
     };
-    FaultForm { kind, context, form: Form::Expr(e) }
+    FaultForm { kind, context, pre, form: Form::Expr(e) }
 }
 
 /// forms that observe what the fault form left behind
